@@ -14,7 +14,11 @@ func pick(r *rand.Rand, xs []string) string { return xs[r.Intn(len(xs))] }
 // features gate the constructs that known divergences depend on (DESIGN 2.6): the default stream
 // draws from the domain of the proved theorems, the out-of-domain stream switches them on.
 type features struct {
-	Wild bool // repeated elements between roots and paths, `vendor`/`main`/`src` as ordinary names, files named vendor, …
+	// Wild: `vendor`/`main`/`src` as ordinary element names, roots and paths that importSrc never produces
+	// (unclean, not directories of the tree). Everything else — repeated elements between roots and paths,
+	// GOPATH/src/vendor, files named vendor, directories without Go files, a main package with its own
+	// vendor directory, every entry mode — belongs to the default stream since the repairs of round 3.
+	Wild bool
 }
 
 // genImportPath: depth 1..4.
@@ -65,8 +69,8 @@ func genLayout(r *rand.Rand, ft features) (goPath string, pkgs []*pkgInfo) {
 	nTop := 2 + r.Intn(4)
 	for i := 0; i < nTop; i++ {
 		ip := genImportPath(r, pool)
-		if !ft.Wild && overlapsAny(ip, universe) {
-			continue
+		if !ft.Wild && r.Intn(2) == 0 && overlapsAny(ip, universe) {
+			continue // half of the trees keep distinct import paths free of shared elements
 		}
 		if addPkg(ip, ip) != nil {
 			universe = append(universe, ip)
@@ -81,13 +85,27 @@ func genLayout(r *rand.Rand, ft features) (goPath string, pkgs []*pkgInfo) {
 	// import paths that exist only vendored
 	for n := r.Intn(3); n > 0; n-- {
 		ip := genImportPath(r, pool)
-		if !ft.Wild && overlapsAny(ip, universe) {
+		if !ft.Wild && r.Intn(2) == 0 && overlapsAny(ip, universe) {
 			continue
 		}
 		universe = append(universe, ip)
 	}
 	// sub-packages of existing ones (import path extends another)
-	if ft.Wild || r.Intn(3) == 0 {
+	// a doubled path "e/e" next to "e" (F16-7), a path below the directory of the importing package (F16-1)
+	if r.Intn(6) == 0 {
+		e := pick(r, pool)
+		for _, ip := range []string{e, e + "/" + e} {
+			if addPkg(ip, ip) != nil {
+				universe = append(universe, ip)
+			}
+		}
+	}
+	if r.Intn(4) == 0 {
+		host := pkgs[r.Intn(len(pkgs))]
+		ip := pick(r, universe)
+		addPkg(host.Rel+"/"+ip, host.Rel+"/"+ip) // GOPATH/src/<host>/<ip> next to GOPATH/src/<ip>
+	}
+	if ft.Wild || r.Intn(2) == 0 {
 		base := pick(r, universe)
 		ip := base + "/" + pick(r, pool)
 		if addPkg(ip, ip) != nil {
@@ -103,9 +121,6 @@ func genLayout(r *rand.Rand, ft features) (goPath string, pkgs []*pkgInfo) {
 			if host == "." {
 				host = ""
 			}
-		}
-		if host == "" && !ft.Wild {
-			continue // GOPATH/src/vendor is kept for the out-of-domain stream
 		}
 		ip := pick(r, universe)
 		rel := strings.TrimPrefix(host+"/vendor/"+ip, "/")
@@ -150,21 +165,62 @@ func structTree(r *rand.Rand, ft features) (*Tree, []*pkgInfo) {
 	for _, p := range pkgs {
 		t.Files[p.Dir+"/"+p.Name+".go"] = "package " + p.Name + "\n"
 	}
-	if ft.Wild {
-		// a directory without Go files where a package is expected, a regular file named vendor
-		if r.Intn(3) == 0 {
-			p := pkgs[r.Intn(len(pkgs))]
-			t.Empty = append(t.Empty, p.Dir+"/vendor/"+pick(r, elemNames))
+	addOddities(r, t, pkgs)
+	return t, pkgs
+}
+
+// addOddities: directories without Go files where a package is looked for (F16-2), regular files where a
+// vendor directory or a package directory is looked for (F16-9).
+func addOddities(r *rand.Rand, t *Tree, pkgs []*pkgInfo) {
+	var ips []string
+	for _, p := range pkgs {
+		ips = append(ips, p.IPath)
+	}
+	hostOf := func() string { // the directory of a package or one of its ancestors, down to GOPATH/src
+		d := pkgs[r.Intn(len(pkgs))].Dir
+		for up := r.Intn(3); up > 0 && d != t.GoPath+"/src"; up-- {
+			d = path.Dir(d)
 		}
-		if r.Intn(4) == 0 {
-			p := pkgs[r.Intn(len(pkgs))]
-			d := path.Dir(p.Dir)
-			if _, clash := t.Files[d+"/vendor"]; !clash && !hasDir(t, d+"/vendor") {
-				t.Files[d+"/vendor"] = "not a directory\n"
+		return d
+	}
+	isFile := func(x string) bool { _, ok := t.Files[x]; return ok }
+	underFile := func(x string) bool {
+		for d := x; d != "." && d != "/"; d = path.Dir(d) {
+			if isFile(d) {
+				return true
 			}
 		}
+		return false
 	}
-	return t, pkgs
+	for n := r.Intn(3); n > 0; n-- {
+		// an empty directory at a vendored position of an import path of the tree (or of a fresh name)
+		ip := pick(r, ips)
+		if r.Intn(4) == 0 {
+			ip = pick(r, elemNames)
+		}
+		d := path.Join(hostOf(), "vendor", ip)
+		if !underFile(d) {
+			t.Empty = append(t.Empty, d)
+		}
+	}
+	if r.Intn(3) == 0 {
+		// a regular file named vendor
+		d := path.Join(hostOf(), "vendor")
+		if !isFile(d) && !hasDir(t, d) && !underFile(d) {
+			t.Files[d] = "not a directory\n"
+		}
+	}
+	if r.Intn(4) == 0 {
+		// a regular file at a candidate path: <host>/vendor/<ip> or GOPATH/src/<ip>
+		ip := pick(r, elemNames) + "/" + pick(r, elemNames)
+		d := path.Join(hostOf(), "vendor", ip)
+		if r.Intn(3) == 0 {
+			d = t.GoPath + "/src/" + ip
+		}
+		if !isFile(d) && !hasDir(t, d) && !underFile(path.Dir(d)) {
+			t.Files[d] = "not a directory\n"
+		}
+	}
 }
 
 func hasDir(t *Tree, d string) bool {
@@ -190,8 +246,27 @@ func structCases(r *rand.Rand, t *Tree, pkgs []*pkgInfo, ft features) []caseT {
 		ips = append(ips, ip)
 	}
 	sort.Strings(ips)
+	// every prefix of an import path of the tree is a directory, seldom a package; the candidate files and
+	// the empty directories of addOddities answer to import paths too
+	for _, ip := range append([]string{}, ips...) {
+		for d := path.Dir(ip); d != "."; d = path.Dir(d) {
+			if !ipaths[d] {
+				ipaths[d] = true
+				ips = append(ips, d)
+			}
+		}
+	}
+	for _, x := range append(t.files(), t.Empty...) {
+		if i := strings.LastIndex(x, "/vendor/"); i >= 0 && !strings.HasSuffix(x, ".go") && !ipaths[x[i+8:]] {
+			ipaths[x[i+8:]] = true
+			ips = append(ips, x[i+8:])
+		} else if pre := t.GoPath + "/src/"; i < 0 && strings.HasPrefix(x, pre) && !strings.HasSuffix(x, ".go") && path.Base(x) != "vendor" && !ipaths[x[len(pre):]] {
+			ipaths[x[len(pre):]] = true
+			ips = append(ips, x[len(pre):])
+		}
+	}
 	ips = append(ips, "nowhere/"+pick(r, elemNames))
-	roots := []string{""}
+	roots := []string{"", ".."}
 	for _, p := range pkgs {
 		roots = append(roots, p.Rel)
 	}
@@ -201,13 +276,43 @@ func structCases(r *rand.Rand, t *Tree, pkgs []*pkgInfo, ft features) []caseT {
 	}
 	for _, root := range roots {
 		for _, ip := range ips {
-			out = append(out, caseT{Kind: "pkgdir", Root: root, Path: ip})
+			out = append(out, caseT{Kind: "gopkgdir", Root: root, Path: ip})
+			if r.Intn(2) == 0 {
+				out = append(out, caseT{Kind: "pkgdir", Root: root, Path: ip})
+			}
 			if r.Intn(4) == 0 {
 				out = append(out, caseT{Kind: "eff", Root: root, Path: ip})
 			}
 		}
 		if root != "" {
 			out = append(out, caseT{Kind: "prev", Root: root, RootPath: t.GoPath + "/src/" + root})
+		}
+	}
+	// mainRoot: the root the imports of the main package, or of a package given by a relative path, are
+	// resolved from — for input files inside and outside GOPATH/src, and no input file at all
+	names := []string{"", "_.go", "main.go", "cmd/main.go", t.GoPath + "/main.go", t.GoPath + "/src/main.go"}
+	for _, p := range pkgs {
+		names = append(names, p.Dir+"/main.go")
+	}
+	rps := []string{"main", "./", "./.", "./sub", "../", "../" + pick(r, elemNames), pkgs[r.Intn(len(pkgs))].Rel}
+	for _, p := range pkgs {
+		if el := strings.Split(p.Rel, "/"); len(el) > 1 {
+			rps = append(rps, "./"+el[len(el)-1], "../"+el[len(el)-1], "./"+strings.Join(el[1:], "/"))
+		}
+	}
+	for _, n := range names {
+		for _, rp := range rps {
+			if r.Intn(12) == 0 || (rp == "main" && r.Intn(3) == 0) {
+				out = append(out, caseT{Kind: "mainroot", Name: n, Root: rp})
+			}
+		}
+	}
+	// relativePath: the key and the root of a relatively imported package
+	for _, b := range []string{".", "./.", "./a", "./a/b", "../a", "../../a", "main"} {
+		for _, p := range []string{"./", "./x", "../x", "./x/y", "../../x", "./x/../y", "../a", "./.."} {
+			if r.Intn(4) == 0 {
+				out = append(out, caseT{Kind: "relpath", Root: b, Path: p})
+			}
 		}
 	}
 	return out
